@@ -39,7 +39,8 @@ def run_impl(c):
         kw = {}
         for name in ("start_sample", "expected_start_sample", "sample_count"):
             if name in c:
-                kw[name] = c[name]
+                # a bool is an int (0 or 1), whatever NumPy makes of a bool index
+                kw[name] = bool(c[name]) if (name in c.get("bool_args", ()) and c[name] in (0, 1)) else c[name]
             elif name in c.get("xnone", ()):
                 kw[name] = None  # None passed explicitly means the same as the argument left out
 
@@ -169,7 +170,9 @@ def gen_cases(rng, tier):
                     c.setdefault("xnone", []).append(name)
                 continue
             elif m < 0.85:
-                c[name] = rng.randrange(0, lim + 1)
+                c[name] = rng.randrange(0, lim + 1) if rng.random() < 0.8 else rng.choice([0, 1])
+                if c[name] in (0, 1) and rng.random() < 0.4:
+                    c.setdefault("bool_args", []).append(name)
             elif m < 0.95:
                 c[name] = lim + rng.randrange(1, 3)
             else:
